@@ -214,7 +214,12 @@ impl<'a> Gen<'a> {
     }
 
     fn param(&mut self, prefix: &str, ty: Type) -> E {
-        let n = format!("{}{}", prefix, self.r.below(3));
+        // an IR from another producer need not spell its parameters in lower case
+        let n = match self.r.below(6) {
+            0 => format!("{}{}", prefix.to_uppercase(), self.r.below(3)),
+            1 => { let mut cs: Vec<char> = prefix.chars().collect(); cs[0] = cs[0].to_ascii_uppercase(); format!("{}{}", cs.into_iter().collect::<String>(), self.r.below(3)) }
+            _ => format!("{}{}", prefix, self.r.below(3)),
+        };
         // one type per name
         let ty = self.params.entry(n.clone()).or_insert(ty).clone();
         bx(tir::Param::ExpectValue(n, ty))
@@ -268,6 +273,14 @@ impl<'a> Gen<'a> {
                 self.allow_compiler = false;
                 let operand = match self.r.below(4) {
                     0 => E::Number(1_757_611_408_000 + self.r.below(100_000_000) as i128),
+                    // the inverse conversion inside (not the identity: time_to_slot truncates to whole slots)
+                    1 if self.r.chance(1, 2) => {
+                        if k == 9 {
+                            bx(tir::CompilerOp::ComputeTimeToSlot(E::Number(1_757_611_408_000 + self.r.below(100_000_000) as i128)))
+                        } else {
+                            bx(tir::CompilerOp::ComputeSlotToTime(E::Number(101_674_141 + self.r.below(1000) as i128)))
+                        }
+                    }
                     1 => E::Number(101_674_141 + self.r.below(1000) as i128),
                     // a parameter, alone or under arithmetic: the operand is available as soon as
                     // the arguments are applied, and has to be reported by find_params
